@@ -7,6 +7,10 @@ C2_ADDR = 0xFA
 C_ADDR, S_ADDR, X_ADDR = 0xF9, 0xD4, 0xA7
 
 
+def key_fn2(seed):
+    return (seed * 3 + 11) & 0xFFFF
+
+
 def key_fn(seed):
     return seed ^ 0xFFFF
 
@@ -81,6 +85,10 @@ def runner(sc):
                 opi['i'] = i
                 if op.get('absent'):
                     sv.on_bus = False
+                if op.get('rekey'):
+                    # both sides are given another seed/key algorithm between two operations (the seeds may repeat)
+                    mc.set_seed_key_algorithm(key_fn2)
+                    ms.set_seed_key_algorithm(key_fn2)
                 t_begin = sim.now
                 res.times.append([t_begin, None])
                 try:
